@@ -39,8 +39,11 @@ package ice
 //@
 //@ func (*countHashWriter).Write
 //@   safety[C11] idx slice nil
+//@   requires[C11] c != nil
 //@   requires[C11] isCHW(c.w) ==> !isCHW(cast(c.w, "*countHashWriter").w)
-//@   modifies c.crc, c.n, cast(c.w, "*countHashWriter").crc if isCHW(c.w), cast(c.w, "*countHashWriter").n if isCHW(c.w), wfailed, out(*), outlen(*)
+//@   modifies c.crc, c.n, cast(c.w, "*countHashWriter").crc if isCHW(c.w), cast(c.w, "*countHashWriter").n if isCHW(c.w), wfailed, \
+//@            out(c), outlen(c), out(c.w), outlen(c.w), \
+//@            out(cast(c.w, "*countHashWriter").w) if isCHW(c.w), outlen(cast(c.w, "*countHashWriter").w) if isCHW(c.w)
 //@   ghostset out(c) = appendseq(old(out(c)), old(outlen(c)), contents(b), off(b), result0)
 //@   ghostset outlen(c) = old(outlen(c)) + result0
 //@   ensures[C11] c.n == old(c.n) + result0
@@ -48,6 +51,9 @@ package ice
 //@   ensures[C11] 0 <= result0 && result0 <= len(b) && (result1 == nil ==> result0 == len(b))
 //@   ensures[C11] outlen(c.w) == old(outlen(c.w)) + result0
 //@   ensures[C11] out(c.w) == appendseq(old(out(c.w)), old(outlen(c.w)), contents(b), off(b), result0)
+//@   // the running CRC stays consistent with the stream, whatever seed s and start offset l0 it was consistent with before
+//@   ensures[C11] forall(s, l0, pat(crcUpd(s, old(out(c.w)), l0, old(outlen(c.w))), l0 <= old(outlen(c.w)) && old(c.crc) == crcUpd(s, old(out(c.w)), l0, old(outlen(c.w))) ==> c.crc == crcUpd(s, out(c.w), l0, outlen(c.w))))
+//@   ensures[C11] isCHW(c.w) ==> cast(c.w, "*countHashWriter").n == old(cast(c.w, "*countHashWriter").n) + result0
 //@   ensures[C12] result1 == nil ==> wfailed == old(wfailed)
 //@   ensures[C12] old(wfailed) ==> wfailed
 //@   ensures c.w == old(c.w)
@@ -157,3 +163,44 @@ package ice
 //@ func (*Segment).DocsMatchingTerms
 //@   loop 0 invariant[C18] dict == nil || dict.sb == s
 //@   loop 0 invariant[C18] rv != nil
+//@
+//@ // persistFooter appends the 44-byte footer: numDocs, storedIndexOffset, fieldsIndexOffset,
+//@ // docValueOffset (big-endian uint64), chunkMode, version 2, and the CRC-32 that continues
+//@ // footer.crc over those 40 bytes (big-endian uint32).
+//@ func persistFooter
+//@   safety[C11] nil
+//@   requires[C11] footer != nil
+//@   requires[C11] isCHW(writerIn) ==> !isCHW(cast(writerIn, "*countHashWriter").w)
+//@   modifies allocTop, wfailed, out(writerIn), outlen(writerIn), \
+//@            out(cast(writerIn, "*countHashWriter").w) if isCHW(writerIn), outlen(cast(writerIn, "*countHashWriter").w) if isCHW(writerIn), \
+//@            cast(writerIn, "*countHashWriter").crc if isCHW(writerIn), cast(writerIn, "*countHashWriter").n if isCHW(writerIn)
+//@   let L = old(outlen(writerIn))
+//@   at store:countHashWriter.crc#0 lemma[C11] w.crc == crcUpd(footer.crc, out(writerIn), L, outlen(writerIn)) && outlen(writerIn) == L
+//@   at call:encoding/binary.Write#0 lemma[C11] w.crc == crcUpd(footer.crc, out(writerIn), L, outlen(writerIn))
+//@   at call:encoding/binary.Write#1 lemma[C11] w.crc == crcUpd(footer.crc, out(writerIn), L, outlen(writerIn))
+//@   at call:encoding/binary.Write#2 lemma[C11] w.crc == crcUpd(footer.crc, out(writerIn), L, outlen(writerIn))
+//@   at call:encoding/binary.Write#3 lemma[C11] w.crc == crcUpd(footer.crc, out(writerIn), L, outlen(writerIn))
+//@   at call:encoding/binary.Write#4 lemma[C11] w.crc == crcUpd(footer.crc, out(writerIn), L, outlen(writerIn))
+//@   at call:encoding/binary.Write#5 lemma[C11] w.crc == crcUpd(footer.crc, out(writerIn), L, outlen(writerIn))
+//@   ensures[C04,C10,C11] result0 == nil ==> outlen(writerIn) == L + 44
+//@   ensures[C04,C10,C11] result0 == nil ==> be64(out(writerIn), L) == footer.numDocs && be64(out(writerIn), L + 8) == footer.storedIndexOffset
+//@   ensures[C04,C10,C11] result0 == nil ==> be64(out(writerIn), L + 16) == footer.fieldsIndexOffset && be64(out(writerIn), L + 24) == footer.docValueOffset
+//@   ensures[C04,C10,C11] result0 == nil ==> be32(out(writerIn), L + 32) == footer.chunkMode && be32(out(writerIn), L + 36) == 2
+//@   ensures[C11] result0 == nil ==> be32(out(writerIn), L + 40) == crcUpd(footer.crc, out(writerIn), L, L + 40)
+//@   ensures[C11] forall(k, 0, L, out(writerIn)[k] == old(out(writerIn))[k])
+//@   ensures[C11] isCHW(writerIn) ==> cast(writerIn, "*countHashWriter").n == old(cast(writerIn, "*countHashWriter").n) + outlen(writerIn) - L
+//@
+//@ // C11 for Segment.WriteTo: the file is the data image followed by the 44-byte footer whose last
+//@ // four bytes are the CRC-32 of every preceding byte; the returned count is the bytes written.
+//@ func (*Segment).WriteTo
+//@   safety[C11] nil
+//@   requires[C11] s != nil && !isCHW(w)
+//@   let L = old(outlen(w))
+//@   let N = dlen(s.data)
+//@   lemma[C11] result1 == nil ==> crcUpd(0, out(w), L, L + N) == crcUpd(0, dbytes(s.data), 0, N)
+//@   lemma[C11] result1 == nil ==> crcUpd(footer.crc, out(w), L + N, L + N + 40) == crcUpd(footer.crc, out(bw), 0, 40)
+//@   lemma[C11] result1 == nil ==> crcUpd(crcUpd(0, out(w), L, L + N), out(w), L + N, L + N + 40) == crcUpd(0, out(w), L, L + N + 40)
+//@   ensures[C04,C11] @count result1 == nil ==> result0 == N + 44 && outlen(w) == L + N + 44
+//@   ensures[C04,C11] @image result1 == nil ==> seqeq(out(w), L, dbytes(s.data), 0, N)
+//@   ensures[C10,C11] @fields result1 == nil ==> be64(out(w), L + N) == s.footer.numDocs && be32(out(w), L + N + 32) == s.footer.chunkMode && be32(out(w), L + N + 36) == 2
+//@   ensures[C11] @crc result1 == nil ==> be32(out(w), L + N + 40) == crcUpd(0, out(w), L, L + N + 40)
